@@ -430,6 +430,17 @@ def run_history(sc, kind, unix, rng, hidx):
             if not held:
                 report_leftovers(sc, kind, st, base, wit, "after close() with %d clients connected (all of them saw EOF)" % len(stayers),
                                  after_close=True)
+            if not st.get("start_returned") and kind != "oneshot":
+                # close() has returned, every client is gone, the state has settled - and the thread that ran start() is still
+                # inside its accept loop (on a listener that no longer exists): a leftover of the closed server
+                st2 = sp.poll_state(lambda x: x.get("start_returned"), 6)[1]
+                if not st2.get("start_returned"):
+                    sc.violation("C17/%s/accept-loop-survives-close" % kind, "%d s after close() returned and everything had settled, start() has still not returned: "
+                                 "the accept loop of the closed server is still waiting (%s listener)" % (QUIESCE, transport), dict(wit, state=st2))
+                else:
+                    sc.count("start_returned_after_close")
+            else:
+                sc.count("start_returned_after_close")
             if st["on_connect"] != before["on_connect"]:
                 sc.inconclusive("hook counter moved without a new client")
             else:
